@@ -499,6 +499,10 @@ func (k Keeper) RestartDutchAuctions(ctx sdk.Context, appID uint64) error {
 			dur := ctx.BlockTime().Sub(dutchAuction.StartTime)
 			seconds := sdk.NewInt(int64(dur.Seconds()))
 			outFlowTokenCurrentPrice := k.getPriceFromLinearDecreaseFunction(dutchAuction.OutflowTokenInitialPrice, tau, seconds)
+			// tau is truncated to whole seconds, which can push the price below the configured end price
+			if outFlowTokenCurrentPrice.LT(dutchAuction.OutflowTokenEndPrice) {
+				outFlowTokenCurrentPrice = dutchAuction.OutflowTokenEndPrice
+			}
 			dutchAuction.InflowTokenCurrentPrice = sdk.NewDec(int64(inFlowTokenCurrentPrice))
 			dutchAuction.OutflowTokenCurrentPrice = outFlowTokenCurrentPrice
 			err := k.SetDutchAuction(ctx, dutchAuction)
